@@ -485,6 +485,11 @@ def run_path(job):
     except Exception as ex:
         return 0, [{"step": -1, "what": f"constructing the channel raised {type(ex).__name__}: {ex}"}], []
     siso = c["ant"][0] == 0
+    if c.get("none_route") and (ch.num_rx_antennas != -1 or ch.num_tx_antennas != -1):
+        # set_num_antennas(None, None) did not bring the channel back to SISO (num_*_antennas report -1 for SISO)
+        return 0, [], [{"id": "SetNumAntennasNoneRaises", "step": 0,
+                        "what": f"after set_num_antennas(None, None) the channel reports {ch.num_rx_antennas} x {ch.num_tx_antennas} "
+                                f"antennas instead of SISO (-1); the next transmission raises TypeError"}]
     # before any transmission there is no impulse response
     try:
         read_ir(c, ch, 0, 0)
